@@ -177,8 +177,8 @@ theorem count_sum_eq_length (q : List ℕ) (P : ℕ) (h : ∀ v ∈ q, v ≤ P) 
     rw [Multiset.mem_toFinset, Multiset.mem_coe] at hv
     exact List.count_eq_zero_of_not_mem hv
 
-theorem conv_sum_core (n P : ℕ) (f : ℕ → ℚ) :
-    ∑ q ∈ allParts n P, ((Nat.multinomial (range (P+1)) (fun v => q.count v) : ℕ) : ℚ) * ∏ v ∈ range (P+1), f v ^ q.count v
+theorem conv_sum_core {R : Type*} [CommSemiring R] (n P : ℕ) (f : ℕ → R) :
+    ∑ q ∈ allParts n P, ((Nat.multinomial (range (P+1)) (fun v => q.count v) : ℕ) : R) * ∏ v ∈ range (P+1), f v ^ q.count v
       = (∑ v ∈ range (P+1), f v) ^ n := by
   rw [Finset.sum_pow_eq_sum_piAntidiag]
   refine Finset.sum_bij (fun q _ => fun v => q.count v) ?_ ?_ ?_ ?_
